@@ -6,14 +6,14 @@
 #include <stdint.h>
 #include <stddef.h>
 #ifdef __CPROVER__
-#ifdef VERIF_REACH
-/* reachability run: every harness assertion is replaced by a witness that must come back violated */
-#define VERIF_ASSERT(c, lab) __CPROVER_assert(0, "WITNESS reach: " lab)
-#define VERIF_WITNESS_END() ((void)0)
-#else
+/* every harness assertion carries a reachability witness (assert(0) that must come back violated) */
+#ifdef VERIF_NO_REACH
 #define VERIF_ASSERT(c, lab) __CPROVER_assert((c), lab)
-#define VERIF_WITNESS_END() __CPROVER_assert(0, "WITNESS end of harness reachable")
+#else
+#define VERIF_ASSERT(c, lab) do { __CPROVER_assert(0, "WITNESS reach: " lab); __CPROVER_assert((c), lab); } while (0)
 #endif
+#define VERIF_WITNESS_END() __CPROVER_assert(0, "WITNESS end of harness reachable")
+#define VERIF_CHECK(c, lab) __CPROVER_assert((c), lab)   /* internal soundness check: no reachability witness */
 #define VERIF_ASSUME(c) __CPROVER_assume(c)
 #define VERIF_COVER(lab) __CPROVER_cover(1)
 #define VERIF_UNREACHABLE() do { __CPROVER_assert(0, "UB: reached llvm unreachable"); __CPROVER_assume(0); } while (0)
@@ -23,6 +23,7 @@ void verif_native_assert(int c, const char *lab);
 void verif_native_assume(int c);
 void verif_native_unreachable(const char *what);
 #define VERIF_ASSERT(c, lab) verif_native_assert((c), lab)
+#define VERIF_CHECK(c, lab) verif_native_assert((c), lab)
 #define VERIF_WITNESS_END() ((void)0)
 #define VERIF_ASSUME(c) verif_native_assume(c)
 #define VERIF_COVER(lab) ((void)0)
